@@ -15,7 +15,6 @@ HISTORY = {  # changes that an earlier version of the checks missed, and what wa
     "agent-C14": "missed at first: clamp bounds were never exactly 0.0; added zero-valued (falsy) hyper-parameters",
     "agent-C18": "first reported as a harness error (the nested exit raised inside the harness); API exceptions inside a transition are now violations",
     "agent-C19": "missed at first by C19 (caught by C10): derived circuits were compiled before the load; the L event now compiles them lazily after load_state_dict",
-    "own-C13-csafelog-conj": "missed at first: C13 had no complex-valued parameters; added complex valuations with finite differences on real and imaginary parts",
     "revert-13-4866aad": "C02 missed it at first (C07 caught it): added complex-parameter pipelines with conjugation to C02",
     "agent-C03": "C02 missed it at first (C03 caught it): added mixed input kinds per variable to C02",
 }
